@@ -8,3 +8,4 @@ import BobModel.Props.C10
 import BobModel.Props.C11
 import BobModel.Props.C14
 import BobModel.Props.C17
+import BobModel.Props.C20
